@@ -15,6 +15,7 @@ PREFIXES = ["C06."]
 
 
 def run(chk):
+    cerlib.run_config(chk, "Rebuild", PREFIXES, repeat=4)
     for cfg in ["C09", "C09client", "C03clientQ", "C02hist", "C17", "C18info"] + (["C03", "C02client"] if chk.tier == "thorough" else []):
         cerlib.run_config(chk, cfg, PREFIXES)
     cerlib.random_histories(chk, PREFIXES, quick_n=100)
